@@ -67,6 +67,8 @@ theorem putAt_grid (t : ATerm) (x y : Int) (bytes : List Nat) (width : Int) (st 
 @[simp] theorem putAt_shape (t : ATerm) (x y b w st) : (t.putAt x y b w st).shape = t.shape := by
   unfold putAt; simp only; (repeat' split) <;> rfl
 @[simp] theorem putAt_writes (t : ATerm) (x y b w st) : (t.putAt x y b w st).writes = (x, y) :: t.writes := rfl
+theorem putAt_covered (t : ATerm) (x y b w st) : (t.putAt x y b w st).covered =
+    if w > 1 then (x + 1, y) :: (x, y) :: t.covered else (x, y) :: t.covered := rfl
 
 end ATerm
 end Tcell
@@ -77,27 +79,30 @@ open Buf
 /-! ### explicit form of drawCell on a dirty cell -/
 
 theorem Scr.drawCellPlain_clean (c : DrawCfg) (s : Scr) (x y : Int) (hd : s.cells.dirty x y = false) :
-    s.drawCellPlain c x y = (s, [], (s.cells.getContent x y).2.2.2) := by
+    s.drawCellPlain c x y = (s, [], s.retWidth c x y) := by
   simp [Scr.drawCellPlain, hd]
 
 @[simp] theorem Scr.cellTextG_false (c : DrawCfg) (w x : Int) (m : Rune) (comb : List Rune) (width : Int) :
     Scr.cellTextG c w x m comb width false = Scr.cellText c w x m comb width := by
   simp [Scr.cellTextG]
 
-theorem Scr.drawCellPlain_dirty (c : DrawCfg) (hg : c.guardLocked = false) (s : Scr) (x y : Int) (hd : s.cells.dirty x y = true) :
+/-- the text of a dirty cell at (x,y): `cellTextG` of what GetContent reports, narrowed when the guard is compiled in and
+the next column is locked -/
+def Scr.txAt (c : DrawCfg) (s : Scr) (x y : Int) : List Nat × Int :=
+  Scr.cellTextG c s.w x (s.cells.getContent x y).1 (s.cells.getContent x y).2.1 (s.cells.getContent x y).2.2.2
+    (c.guardLocked && s.cells.locked (x + 1) y)
+
+theorem Scr.drawCellPlain_dirty (c : DrawCfg) (s : Scr) (x y : Int) (hd : s.cells.dirty x y = true) :
     s.drawCellPlain c x y =
       ({ s with curstyle := resolveStyle s.style (s.cells.getContent x y).2.2.1,
-                cx := if (Scr.cellText c s.w x (s.cells.getContent x y).1 (s.cells.getContent x y).2.1 (s.cells.getContent x y).2.2.2).2 > 1
-                      then -1 else x + (Scr.cellText c s.w x (s.cells.getContent x y).1 (s.cells.getContent x y).2.1 (s.cells.getContent x y).2.2.2).2,
+                cx := if (s.txAt c x y).2 > 1 then -1 else x + (s.txAt c x y).2,
                 cy := y, cells := s.cells.setDirty x y false },
        (if s.cy ≠ y ∨ s.cx ≠ x then [Cmd.goto x y] else []) ++
          ((if resolveStyle s.style (s.cells.getContent x y).2.2.1 ≠ s.curstyle
             then [Cmd.setPen (resolveStyle s.style (s.cells.getContent x y).2.2.1)] else []) ++
-          [Cmd.put (Scr.cellText c s.w x (s.cells.getContent x y).1 (s.cells.getContent x y).2.1 (s.cells.getContent x y).2.2.2).1
-                   (Scr.cellText c s.w x (s.cells.getContent x y).1 (s.cells.getContent x y).2.1 (s.cells.getContent x y).2.2.2).2]),
-       (Scr.cellText c s.w x (s.cells.getContent x y).1 (s.cells.getContent x y).2.1 (s.cells.getContent x y).2.2.2).2) := by
-  simp only [Scr.drawCellPlain, hd, not_true_eq_false, if_false, Scr.paint, resolveStyle, hg, Bool.false_and,
-    Scr.cellTextG_false]
+          [Cmd.put (s.txAt c x y).1 (s.txAt c x y).2]),
+       (s.txAt c x y).2) := by
+  simp only [Scr.drawCellPlain, hd, not_true_eq_false, if_false, Scr.paint, resolveStyle, Scr.txAt]
   by_cases hgo : s.cy ≠ y ∨ s.cx ≠ x
   · simp only [hgo, if_true]; rfl
   · have hx : s.cx = x := by
@@ -185,23 +190,121 @@ open Buf
 theorem shown_wide_ne {b1 b2 : List Nat} {s1 s2 : Style} : ACell.shown b1 false s1 ≠ ACell.shown b2 true s2 := by
   intro h; injection h with _ h2 _; exact absurd h2 (by decide)
 
+/-! ### the guard-aware cell text -/
+
+theorem cellTextG_width {c : DrawCfg} (hrw : RwOk c.rw) (w x : Int) (m : Rune) (comb : List Rune) (nl : Bool) :
+    let tx := Scr.cellTextG c w x (obsMain c.rw m) comb (obsWidth c.rw m) nl
+    (tx.2 = 1 ∨ tx.2 = 2) := by
+  simp only [Scr.cellTextG]
+  split
+  · left; rfl
+  · exact cellText_width hrw w x m comb
+
+theorem cellTextG_true_width (c : DrawCfg) (w x : Int) (m : Rune) (comb : List Rune) (width : Int) :
+    (Scr.cellTextG c w x m comb width true).2 = 1 := by
+  unfold Scr.cellTextG
+  split
+  · rfl
+  · rename_i h
+    have hw : ¬ width > 1 := fun h' => h ⟨rfl, h'⟩
+    have e : (if width < 1 then 1 else width) = 1 := by split <;> omega
+    simp only [Scr.cellText, e]
+    split <;> rfl
+
+theorem cellTextG_narrow (c : DrawCfg) (w x : Int) (m : Rune) (comb : List Rune) (width : Int) (nl : Bool)
+    (hw : width ≤ 1) : (Scr.cellTextG c w x m comb width nl).2 = 1 := by
+  unfold Scr.cellTextG
+  split
+  · rfl
+  · have e : (if width < 1 then 1 else width) = 1 := by split <;> omega
+    simp only [Scr.cellText, e]
+    split <;> rfl
+
+theorem cellTextG_of_not (c : DrawCfg) (w x : Int) (m : Rune) (comb : List Rune) (width : Int) (nl : Bool)
+    (h : ¬ (nl = true ∧ width > 1)) : Scr.cellTextG c w x m comb width nl = Scr.cellText c w x m comb width := by
+  unfold Scr.cellTextG; rw [if_neg h]
+
+theorem cellTextG_of_guard (c : DrawCfg) (w x : Int) (m : Rune) (comb : List Rune) (width : Int) (nl : Bool)
+    (h : nl = true ∧ width > 1) : Scr.cellTextG c w x m comb width nl = ([32], 1) := by
+  unfold Scr.cellTextG; rw [if_pos h]
+
+@[simp] theorem shownOfG_false (c : DrawCfg) (w x : Int) (m : Rune) (comb : List Rune) (st : Style) :
+    shownOfG c w x m comb st false = shownOf c w x m comb st := by
+  simp [shownOfG, shownOf]
+
+/-- a rune GetContent reports as one column wide is never shown as a two-column glyph -/
+theorem shownOfG_narrow (c : DrawCfg) (w x : Int) (m : Rune) (comb : List Rune) (st : Style) (nl : Bool)
+    (h : obsWidth c.rw m ≤ 1) (b : List Nat) (st' : Style) : shownOfG c w x m comb st nl ≠ .shown b true st' := by
+  intro h'
+  simp only [shownOfG, cellTextG_narrow c w x _ comb _ nl h] at h'
+  injection h' with _ h2 _
+  simp at h2
+
+/-- the guarded blank is not a two-column glyph either -/
+theorem shownOfG_guard (c : DrawCfg) (w x : Int) (m : Rune) (comb : List Rune) (st : Style)
+    (h : obsWidth c.rw m > 1) : shownOfG c w x m comb st true = .shown [32] false st := by
+  simp only [shownOfG, cellTextG_of_guard c w x _ comb _ true ⟨rfl, h⟩]
+  simp
+
+theorem dirty_unlocked (b : Buf) (x y : Int) (hd : b.dirty x y = true) : b.locked x y = false := by
+  simp only [dirty] at hd
+  simp only [Buf.locked]
+  split at hd
+  · rename_i hr; rw [if_pos hr]; exact isDirty_true_unlocked _ hd
+  · exact absurd hd (by simp)
+
+theorem locked_true_iff (b : Buf) (x y : Int) : b.locked x y = true ↔ (b.inRange x y ∧ (b.cells x y).lock = true) := by
+  simp only [Buf.locked]
+  split
+  · rename_i h; simp [h]
+  · rename_i h; simp [h]
+
+/-- `locked` only reads the dimensions and the lock flags -/
+theorem locked_congr (b b' : Buf) (hw : b'.w = b.w) (hh : b'.h = b.h) (hl : ∀ i j, (b'.cells i j).lock = (b.cells i j).lock)
+    (i j : Int) : b'.locked i j = b.locked i j := by
+  simp only [Buf.locked, inRange_iff, hw, hh, hl]
+
+theorem BlankOk.congr {b b' : Buf} {i j : Int} (h : BlankOk b i j) (hw : (b'.cells i j).width = (b.cells i j).width)
+    (hl : b'.locked (i + 1) j = b.locked (i + 1) j) (hg : b'.getContent i j = b.getContent i j) : BlankOk b' i j := by
+  unfold BlankOk at h ⊢
+  rw [hw, hl, hg]; exact h
+
+/-- a clean cell returns the loop's step -/
+theorem retWidth_eq_stepW {c : DrawCfg} (hct : c.Plain) (s : Scr) (x y : Int) (hd : s.cells.dirty x y = false) :
+    s.retWidth c x y = stepW c s.cells x y := by
+  unfold Scr.retWidth stepW
+  cases hw : c.walkGuard
+  · simp [hd]
+  · have := hct.wg hw; simp [this]
+
+theorem retWidth_cases (c : DrawCfg) (s : Scr) (x y : Int) :
+    s.retWidth c x y = (s.cells.getContent x y).2.2.2 ∨ (s.retWidth c x y = 1 ∧ s.cells.locked (x + 1) y = true) := by
+  unfold Scr.retWidth; split
+  · rename_i h; right; exact ⟨rfl, h.2.2⟩
+  · left; rfl
+
 /-- the clean branch of one loop iteration -/
-theorem visit_clean {c : DrawCfg} (hrw : RwOk c.rw) {d : Option Style} {s : Scr} {t : ATerm} {x y : Int}
+theorem visit_clean {c : DrawCfg} (hrw : RwOk c.rw) (hct : c.Plain) {d : Option Style} {s : Scr} {t : ATerm} {x y : Int}
     (inv : PassInv c d s t x y) (hr : s.cells.inRange x y) (hd : s.cells.dirty x y = false) :
     VisitPost c d s t x y (s.visit c x y).1 (t.applyAll (s.visit c x y).2.1) (s.visit c x y).2.2 := by
   have hgc := getContent_wok hrw s.cells x y hr (inv.wok x y)
-  have hdc : s.drawCell c x y = (s, [], (s.cells.getContent x y).2.2.2) := by simp [Scr.drawCell, hd]
+  have hdc : s.drawCell c x y = (s, [], s.retWidth c x y) := by simp [Scr.drawCell, hd]
   have hwpos := obsWidth_pos hrw (s.cells.cells x y).currMain
   have hgw : (s.cells.getContent x y).2.2.2 = obsWidth c.rw (s.cells.cells x y).currMain := by rw [hgc]
+  have hstep := retWidth_eq_stepW hct s x y hd
+  have hret := retWidth_cases c s x y
+  generalize hrv : s.retWidth c x y = rv at hdc hstep hret
+  have hrv1 : 1 ≤ rv := by rcases hret with h | h <;> omega
   -- if the cell is unlocked it is clean with last = curr
   have hclean : (s.cells.cells x y).lock = false →
       (s.cells.cells x y).lastMain ≠ 0 ∧ (s.cells.cells x y).last = (s.cells.cells x y).content := by
     intro hl
     have : (s.cells.cells x y).isDirty = false := by simpa [dirty, hr] using hd
     exact (Cell.isDirty_false_iff _ hl).1 this
-  by_cases hwide : (s.cells.getContent x y).2.2.2 > 1 ∧ x + 1 < s.w
+  by_cases hwide : rv > 1 ∧ x + 1 < s.w
   · -- wide and not in the last column: the right neighbour is marked dirty
-    have hv : s.visit c x y = ({ s with cells := s.cells.setDirty (x + 1) y true }, [], (s.cells.getContent x y).2.2.2) := by
+    have hw2 : rv = 2 := by rcases hret with h | h <;> omega
+    have hv : s.visit c x y = ({ s with cells := s.cells.setDirty (x + 1) y true }, [], rv) := by
       simp only [Scr.visit, hdc, hwide, and_self, if_true]
     rw [hv]
     have hr1 : s.cells.inRange (x + 1) y := by
@@ -211,9 +314,15 @@ theorem visit_clean {c : DrawCfg} (hrw : RwOk c.rw) {d : Option Style} {s : Scr}
       intro i j; rw [setDirty_true_cells]; simp [hr1]
     have hir : ∀ i j, (s.cells.setDirty (x + 1) y true).inRange i j ↔ s.cells.inRange i j := by
       intro i j; simp [inRange_iff]
-    refine { inv := ?_, wd_pos := (by show 1 ≤ (s.cells.getContent x y).2.2.2; omega), wd_eq := Or.inl rfl, gc_same := ?_, lock_same := ?_, other_same := ?_,
+    have hgcs : ∀ i j, (s.cells.setDirty (x + 1) y true).getContent i j = s.cells.getContent i j :=
+      getContent_setDirty hrw s.cells (x + 1) y true inv.wok
+    have hlk : ∀ i j, (s.cells.setDirty (x + 1) y true).locked i j = s.cells.locked i j := by
+      intro i j; apply locked_congr _ _ (by simp) (by simp)
+      intro i' j'; rw [hcells]; split <;> simp
+    refine { inv := ?_, wd_pos := hrv1, wd_eq := Or.inl hstep, gc_same := hgcs, lock_same := ?_, other_same := ?_,
              done := ?_, w_same := rfl, h_same := rfl, style_same := rfl, cursor_same := ⟨rfl, rfl, rfl, rfl⟩,
-             flags_same := ⟨rfl, rfl⟩, writes := by simp [ATerm.applyAll, hd], vis_same := ⟨rfl, rfl⟩ }
+             flags_same := ⟨rfl, rfl⟩, writes := by simp [ATerm.applyAll, hd], vis_same := ⟨rfl, rfl⟩,
+             covers := ⟨[], by simp [ATerm.applyAll], by intro _ p hp; simp at hp⟩ }
     · refine { tw := inv.tw, th := inv.th, cw := ?_, ch := ?_, wok := ?_, valid := ?_, g1 := ?_, g2 := ?_, wf := ?_,
                g3 := ?_, kcur := ?_, kpen := inv.kpen, q := ?_, dcompat := inv.dcompat }
       · simpa using inv.cw
@@ -230,7 +339,10 @@ theorem visit_clean {c : DrawCfg} (hrw : RwOk c.rw) {d : Option Style} {s : Scr}
         simp only [ATerm.applyAll, List.foldl_nil]
         split at hm
         · simp at hm
-        · rename_i hne; rw [if_neg hne] at hl ⊢; exact inv.g1 i j ((hir i j).1 hrij) hl hm
+        · rename_i hne; rw [if_neg hne] at hl ⊢
+          obtain ⟨st', nl, a1, a2, a3, a4⟩ := inv.g1 i j ((hir i j).1 hrij) hl hm
+          refine ⟨st', nl, a1, a2, a3, fun h1 h2 => ⟨(a4 h1 h2).1, (a4 h1 h2).2.congr ?_ (hlk _ _) (hgcs _ _)⟩⟩
+          rw [hcells, if_neg hne]
       · intro i j hrij hcont
         simp only [hcells, ATerm.applyAll, List.foldl_nil] at hcont ⊢
         split
@@ -238,56 +350,55 @@ theorem visit_clean {c : DrawCfg} (hrw : RwOk c.rw) {d : Option Style} {s : Scr}
         · exact inv.g2 i j ((hir i j).1 hrij) hcont
       · intro i j hrij hcont
         exact inv.wf i j ((hir i j).1 hrij) hcont
-      · intro i j hrij hl hm hsw hlt
-        simp only [hcells] at hl hm hsw ⊢
-        simp only [ATerm.applyAll, List.foldl_nil]
+      · intro i j hrij hl hm b st hsh hlt
+        simp only [hcells] at hl hm
+        simp only [ATerm.applyAll, List.foldl_nil] at hsh ⊢
         split at hm
         · simp at hm
-        · rename_i hne; rw [if_neg hne] at hl hsw; exact inv.g3 i j ((hir i j).1 hrij) hl hm hsw hlt
+        · rename_i hne; rw [if_neg hne] at hl; exact inv.g3 i j ((hir i j).1 hrij) hl hm b st hsh hlt
       · intro hcr; exact inv.kcur ((hir _ _).1 hcr)
-      · intro h1 h2 hl hm
+      · intro h1 h2 _ hl hm
         -- the cell left of x + wd is x + 1 (just marked dirty) since wd = 2
-        have hw2 : (s.cells.getContent x y).2.2.2 = 2 := by omega
         simp only [hw2, hcells] at hl hm ⊢
         have : x + 2 - 1 = x + 1 := by omega
         rw [this] at hm; simp at hm
-    · intro i j
-      exact getContent_setDirty hrw s.cells (x + 1) y true inv.wok i j
     · intro i j; simp only [hcells]; split <;> simp
     · intro i j hne; simp only [hcells]
-      have hw2 : (s.cells.getContent x y).2.2.2 = 2 := by omega
       simp only [hw2] at hne
       have : ¬ (i = x + 1 ∧ j = y) := by omega
       rw [if_neg this]
     · intro hl
       have hne : ¬ (x = x + 1 ∧ y = y) := by omega
       rw [hcells, if_neg hne]; exact hclean hl
-  · have hv : s.visit c x y = (s, [], (s.cells.getContent x y).2.2.2) := by
+  · have hv : s.visit c x y = (s, [], rv) := by
       simp only [Scr.visit, hdc, hwide, if_false]
     rw [hv]
-    refine { inv := ?_, wd_pos := (by show 1 ≤ (s.cells.getContent x y).2.2.2; omega), wd_eq := Or.inl rfl, gc_same := fun _ _ => rfl, lock_same := fun _ _ => rfl,
+    refine { inv := ?_, wd_pos := hrv1, wd_eq := Or.inl hstep, gc_same := fun _ _ => rfl, lock_same := fun _ _ => rfl,
              other_same := fun _ _ _ => rfl, done := hclean, w_same := rfl, h_same := rfl, style_same := rfl,
              cursor_same := ⟨rfl, rfl, rfl, rfl⟩, flags_same := ⟨rfl, rfl⟩, writes := by simp [ATerm.applyAll, hd],
-             vis_same := ⟨rfl, rfl⟩ }
+             vis_same := ⟨rfl, rfl⟩, covers := ⟨[], by simp [ATerm.applyAll], by intro _ p hp; simp at hp⟩ }
     refine { toSyncInv := inv.toSyncInv, kcur := inv.kcur, kpen := inv.kpen, q := ?_, dcompat := inv.dcompat }
-    intro h1 h2 hl hm
-    simp only at h1 h2 hl hm ⊢
-    by_cases hw1 : (s.cells.getContent x y).2.2.2 = 1
-    · -- narrow: the cell left of x+1 is x itself; if unlocked it is clean with last = curr, of width 1
-      have e : x + (s.cells.getContent x y).2.2.2 - 1 = x := by omega
-      rw [e] at hl hm ⊢
-      have hc := hclean hl
-      have hlm : (s.cells.cells x y).lastMain = (s.cells.cells x y).currMain := by
-        have := hc.2; simp only [Cell.last, Cell.content] at this; injection this
-      have hlc : (s.cells.cells x y).lastComb = (s.cells.cells x y).currComb := by
-        have := hc.2; simp only [Cell.last, Cell.content] at this; injection this with _ h2; injection h2
-      rw [hlm, hlc]
-      simp only [shownWidth, Scr.cellText]
-      rw [hgw] at hw1
-      rw [hw1]; simp only [show ¬ ((1:Int) < 1) by omega, if_false]
-      split <;> simp
+    intro h1 h2 hlx hl hm b st hsh
+    simp only [ATerm.applyAll, List.foldl_nil] at hsh
+    simp only at h1 h2 hlx hl hm hsh
+    by_cases hw1 : rv = 1
+    · -- one column: the cell left of x+1 is x itself
+      have e : x + rv - 1 = x := by omega
+      rw [e] at hl hm hsh
+      rw [hw1] at hlx
+      rcases hret with hg | hg
+      · -- narrow rune: if unlocked it is clean with last = curr, of width 1
+        have hc := hclean hl
+        have hlm : (s.cells.cells x y).lastMain = (s.cells.cells x y).currMain := by
+          have := hc.2; simp only [Cell.last, Cell.content] at this; injection this
+        obtain ⟨st', nl, a1, _⟩ := inv.g1 x y hr hl hm
+        rw [a1, hlm] at hsh
+        exact shownOfG_narrow c s.w x _ _ st' nl (by omega) b st hsh
+      · -- a wide rune counted as one column: its right neighbour is locked, but the visit position is not
+        have := ((locked_true_iff _ _ _).1 hg.2).2
+        rw [this] at hlx; exact absurd hlx (by decide)
     · -- wide in the last column: x + wd ≥ w, nothing to show
-      exfalso; omega
+      exfalso; rcases hret with h | h <;> omega
 
 end Tcell
 
@@ -301,7 +412,7 @@ theorem resolveStyle_valid (dflt st : Style) (h1 : dflt.attrs ≠ attrInvalid) (
   · intro h; apply h1; rw [h]
   · intro h; apply h2; rw [h]
 
-/-- the dirty branch of one loop iteration (no bottom-right corner trick) -/
+/-- the dirty branch of one loop iteration (no bottom-right corner trick; locked-neighbour guard compiled in or not) -/
 theorem visit_dirty {c : DrawCfg} (hrw : RwOk c.rw) (hct : c.Plain) {d : Option Style} {s : Scr} {t : ATerm}
     {x y : Int} (inv : PassInv c d s t x y) (hr : s.cells.inRange x y) (hd : s.cells.dirty x y = true) :
     VisitPost c d s t x y (s.visit c x y).1 (t.applyAll (s.visit c x y).2.1) (s.visit c x y).2.2 := by
@@ -311,19 +422,62 @@ theorem visit_dirty {c : DrawCfg} (hrw : RwOk c.rw) (hct : c.Plain) {d : Option 
     apply isDirty_true_unlocked; simpa [dirty, hr] using hd
   have hcw := inv.cw; have hch := inv.ch; have htw := inv.tw; have hth := inv.th
   have hxy : 0 ≤ x ∧ x < s.w ∧ 0 ≤ y ∧ y < s.h := by simp only [inRange_iff] at hr; omega
+  have hwokxy : (s.cells.cells x y).width = c.rw (s.cells.cells x y).currMain ∨
+      ((s.cells.cells x y).width = 0 ∧ (s.cells.cells x y).currMain = 32) := inv.wok x y
   -- abbreviations
+  generalize hnlb : (c.guardLocked && s.cells.locked (x + 1) y) = nlb
+  generalize hcwd : (s.cells.cells x y).width = cwd at hwokxy
   generalize hcm : (s.cells.cells x y).currMain = cm at *
   generalize hcomb : (s.cells.cells x y).currComb = comb at *
   generalize hcst : (s.cells.cells x y).currStyle = cst at *
-  have htxw := cellText_width hrw s.w x cm comb
-  generalize htx : Scr.cellText c s.w x (obsMain c.rw cm) comb (obsWidth c.rw cm) = tx at *
+  have htxw := cellTextG_width hrw s.w x cm comb nlb
+  -- the loop's step, computed before the text is abbreviated
+  have hwdeq : (Scr.cellTextG c s.w x (obsMain c.rw cm) comb (obsWidth c.rw cm) nlb).2 = stepW c s.cells x y ∨
+      (x + (Scr.cellTextG c s.w x (obsMain c.rw cm) comb (obsWidth c.rw cm) nlb).2 ≥ s.w ∧ x + stepW c s.cells x y ≥ s.w) := by
+    have hp := obsWidth_pos hrw cm
+    unfold stepW; rw [hgc]; simp only [hd, or_true, and_true]
+    by_cases hg : c.guardLocked = true ∧ obsWidth c.rw cm > 1 ∧ s.cells.locked (x + 1) y = true
+    · rw [if_pos hg]
+      have : nlb = true := by rw [← hnlb, hg.1, hg.2.2]; rfl
+      left; rw [cellTextG_of_guard _ _ _ _ _ _ _ ⟨this, hg.2.1⟩]
+    · rw [if_neg hg]
+      have hn : ¬ (nlb = true ∧ obsWidth c.rw cm > 1) := by
+        intro h; apply hg
+        have h1 := h.1; rw [← hnlb, Bool.and_eq_true] at h1
+        exact ⟨h1.1, h.2, h1.2⟩
+      rw [cellTextG_of_not _ _ _ _ _ _ _ hn]
+      simp only [Scr.cellText]
+      have h1 : ¬ obsWidth c.rw cm < 1 := by omega
+      simp only [h1, if_false]
+      split
+      · right; simp only; omega
+      · left; rfl
+  -- with the guard compiled in, a two-column text is only produced when the next column is not locked
+  have hguard : c.guardLocked = true → (Scr.cellTextG c s.w x (obsMain c.rw cm) comb (obsWidth c.rw cm) nlb).2 > 1 →
+      s.cells.locked (x + 1) y = false := by
+    intro hg hw
+    cases hl : s.cells.locked (x + 1) y
+    · rfl
+    · have : nlb = true := by rw [← hnlb, hg, hl]; rfl
+      rw [this, cellTextG_true_width] at hw; omega
+  -- the guarded blank: what the invariant remembers
+  have hblank : nlb = true → obsWidth c.rw cm > 1 → c.guardLocked = true ∧ 0 < cwd ∧ s.cells.locked (x + 1) y = true := by
+    intro h1 h2
+    rw [← hnlb, Bool.and_eq_true] at h1
+    refine ⟨h1.1, ?_, h1.2⟩
+    have hz : ¬ (c.rw cm = 0 ∨ cm < 32) := by intro h; simp only [obsWidth, if_pos h] at h2; omega
+    simp only [obsWidth, if_neg hz] at h2
+    rcases hwokxy with h | h
+    · omega
+    · rw [h.2, hrw.space] at h2; omega
+  generalize htx : Scr.cellTextG c s.w x (obsMain c.rw cm) comb (obsWidth c.rw cm) nlb = tx at *
   generalize hstyle : resolveStyle s.style cst = style at *
   have hstv : style ≠ styleInvalid := by
     rw [← hstyle]; apply resolveStyle_valid _ _ inv.valid.1
     have := inv.valid.2 x y; rw [hcst] at this; exact this
   -- explicit result of drawCell
-  have hdp := Scr.drawCellPlain_dirty c hct.ng s x y hd
-  rw [hgc] at hdp; simp only [htx, hstyle] at hdp
+  have hdp := Scr.drawCellPlain_dirty c s x y hd
+  simp only [Scr.txAt, hgc, hnlb, htx, hstyle] at hdp
   -- the terminal just before the glyph is printed
   have hterm : t.applyAll ((if s.cy ≠ y ∨ s.cx ≠ x then [Cmd.goto x y] else []) ++
       ((if style ≠ s.curstyle then [Cmd.setPen style] else []) ++ [Cmd.put tx.1 tx.2])) =
@@ -375,6 +529,7 @@ theorem visit_dirty {c : DrawCfg} (hrw : RwOk c.rw) (hct : c.Plain) {d : Option 
   generalize ht0 : ({ t with cur := some (x, y), pen := some style } : ATerm) = t0 at hterm
   have ht0g : ∀ i j, t0.grid i j = t.grid i j := by intro i j; rw [← ht0]
   have ht0w : t0.writes = t.writes := by rw [← ht0]
+  have ht0cov : t0.covered = t.covered := by rw [← ht0]
   have ht0c : t0.chaos = t.chaos := by rw [← ht0]
   have ht0v : t0.visible = t.visible ∧ t0.shape = t.shape := by rw [← ht0]; exact ⟨rfl, rfl⟩
   have ht0d : t0.w = t.w ∧ t0.h = t.h := by rw [← ht0]; exact ⟨rfl, rfl⟩
@@ -391,25 +546,12 @@ theorem visit_dirty {c : DrawCfg} (hrw : RwOk c.rw) (hct : c.Plain) {d : Option 
   have hq : ∀ (hx1 : 1 ≤ x), (s.cells.cells (x - 1) y).lock = false → (s.cells.cells (x - 1) y).lastMain ≠ 0 →
       t.grid x y ≠ .cont := by
     intro hx1 hl hm hcont
-    have hw := inv.q hx1 hxy.2.1 hl hm
-    have hr' : s.cells.inRange (x - 1) y := by simp only [inRange_iff] at hr ⊢; omega
-    obtain ⟨st', hg, _⟩ := inv.g1 (x - 1) y hr' hl hm
     obtain ⟨b, st, hwf⟩ := inv.wf x y hr hcont
-    rw [hg] at hwf
-    simp only [shownOf] at hwf
-    simp only [shownWidth] at hw
-    have : decide ((Scr.cellText c s.w (x - 1) (obsMain c.rw (s.cells.cells (x - 1) y).lastMain)
-        (s.cells.cells (x - 1) y).lastComb (obsWidth c.rw (s.cells.cells (x - 1) y).lastMain)).2 > 1) = false := by
-      simp; omega
-    rw [this] at hwf
-    exact shown_wide_ne hwf
+    exact inv.q hx1 hxy.2.1 hlock hl hm b st hwf
   -- new last of the painted cell shows exactly what was printed
-  have hshown : shownOf c s.w x (if cm = 0 then 32 else cm) comb style = .shown tx.1 (decide (tx.2 > 1)) style := by
+  have hshown : shownOfG c s.w x (if cm = 0 then 32 else cm) comb style nlb = .shown tx.1 (decide (tx.2 > 1)) style := by
     have := obsMain_markClean hrw cm
-    simp only [shownOf, this.1, this.2, htx]
-  have hsw : shownWidth c s.w x (if cm = 0 then 32 else cm) comb = tx.2 := by
-    have := obsMain_markClean hrw cm
-    simp only [shownWidth, this.1, this.2, htx]
+    simp only [shownOfG, this.1, this.2, htx]
   have hstyle1 : cst ≠ {} → style = cst := by
     intro h; rw [← hstyle]; simp [resolveStyle, h]
   have hstyle2 : cst = {} → ∀ d', d = some d' → style = d' := by
@@ -432,12 +574,47 @@ theorem visit_dirty {c : DrawCfg} (hrw : RwOk c.rw) (hct : c.Plain) {d : Option 
         if i = x ∧ j = y then (s.cells.cells i j).markClean
         else if i = x + 1 ∧ j = y ∧ tx.2 > 1 ∧ x + 1 < s.w then (s.cells.cells i j).markDirty
         else s.cells.cells i j) →
+      (∀ i j, cells'.getContent i j = s.cells.getContent i j) →
       (cx' = if tx.2 > 1 then -1 else x + tx.2) →
       PassInv c d { s with curstyle := style, cx := cx', cy := y, cells := cells' }
         (t0.putAt x y tx.1 tx.2 style) (x + tx.2) y := by
-    intro cells' cx' hdims hcells hcx
+    intro cells' cx' hdims hcells hgcs hcx
     have hir : ∀ i j, cells'.inRange i j ↔ s.cells.inRange i j := by
       intro i j; simp only [inRange_iff, hdims.1, hdims.2]
+    have hlks : ∀ i j, (cells'.cells i j).lock = (s.cells.cells i j).lock := by
+      intro i j; rw [hcells]; split
+      · simp [Cell.markClean]
+      · split <;> simp
+    have hlk : ∀ i j, cells'.locked i j = s.cells.locked i j := locked_congr _ _ hdims.1 hdims.2 hlks
+    have hwds : ∀ i j, (cells'.cells i j).width = (s.cells.cells i j).width := by
+      intro i j; rw [hcells]; split
+      · simp [Cell.markClean]
+      · split <;> simp [Cell.markDirty]
+    -- a kept clean cell shows on the new terminal what it showed before
+    have hkeepgrid : ∀ i j, s.cells.inRange i j → (s.cells.cells i j).lock = false → (s.cells.cells i j).lastMain ≠ 0 →
+        ¬ (i = x ∧ j = y) → ¬ (i = x + 1 ∧ j = y ∧ tx.2 > 1 ∧ x + 1 < s.w) →
+        (t0.putAt x y tx.1 tx.2 style).grid i j = t.grid i j := by
+      intro i j hrij' hl hm h1 h2
+      rw [hgrid]
+      have hi : 0 ≤ i ∧ i < s.w ∧ 0 ≤ j ∧ j < s.h := by simp only [inRange_iff] at hrij'; omega
+      have n1 : ¬ (i = x + 1 ∧ j = y ∧ tx.2 > 1) := by
+        intro h; exact h2 ⟨h.1, h.2.1, h.2.2, by omega⟩
+      have n3 : ¬ (i = x + 2 ∧ j = y ∧ tx.2 > 1 ∧ t.grid (x + 2) y = .cont) := by
+        intro h
+        rcases inv.g2 i j hrij' (by rw [h.1, h.2.1]; exact h.2.2.2) with h' | h'
+        · rw [hl] at h'; exact absurd h' (by decide)
+        · exact hm h'
+      have n4 : ¬ (i = x + 1 ∧ j = y ∧ tx.2 ≤ 1 ∧ t.grid (x + 1) y = .cont) := by
+        intro h
+        rcases inv.g2 i j hrij' (by rw [h.1, h.2.1]; exact h.2.2.2) with h' | h'
+        · rw [hl] at h'; exact absurd h' (by decide)
+        · exact hm h'
+      have n5 : ¬ (i = x - 1 ∧ j = y ∧ t.grid x y = .cont) := by
+        intro h
+        have hl' := hl; have hm' := hm
+        rw [h.1, h.2.1] at hl' hm'
+        exact hq (by omega) hl' hm' h.2.2
+      simp only [n1, h1, n3, n4, n5, if_false]
     refine { tw := ?_, th := ?_, cw := ?_, ch := ?_, wok := ?_, valid := ?_, g1 := ?_, g2 := ?_, wf := ?_, g3 := ?_,
              kcur := ?_, kpen := ?_, q := ?_, dcompat := inv.dcompat }
     · simp [ht0d.1, htw]
@@ -458,41 +635,32 @@ theorem visit_dirty {c : DrawCfg} (hrw : RwOk c.rw) (hct : c.Plain) {d : Option 
     · -- g1
       intro i j hrij hl hm
       have hrij' := (hir i j).1 hrij
-      simp only [hcells] at hl hm ⊢
+      simp only at hrij hl hm ⊢
       by_cases h1 : i = x ∧ j = y
       · obtain ⟨rfl, rfl⟩ := h1
-        simp only [and_self, if_true, Cell.markClean_lastMain, Cell.markClean_lastComb, Cell.markClean_lastStyle,
-          hcm, hcomb, hcst]
-        refine ⟨style, ?_, hstyle1, hstyle2⟩
-        rw [hgrid, hshown]
-        have : ¬ (i = i + 1 ∧ j = j ∧ tx.2 > 1) := by omega
-        rw [if_neg this, if_pos ⟨rfl, rfl⟩]
-      · rw [if_neg h1] at hl hm ⊢
+        have hcxy := hcells i j
+        rw [if_pos ⟨rfl, rfl⟩] at hcxy
+        rw [hcxy]
+        simp only [Cell.markClean_lastMain, Cell.markClean_lastComb, Cell.markClean_lastStyle, hcm, hcomb, hcst]
+        refine ⟨style, nlb, ?_, hstyle1, hstyle2, ?_⟩
+        · rw [hgrid, hshown]
+          have : ¬ (i = i + 1 ∧ j = j ∧ tx.2 > 1) := by omega
+          rw [if_neg this, if_pos ⟨rfl, rfl⟩]
+        · intro hn hwide
+          rw [(obsMain_markClean hrw cm).2] at hwide
+          obtain ⟨b1, b2, b3⟩ := hblank hn hwide
+          refine ⟨b1, ?_, Or.inl ?_⟩
+          · rw [hwds, hcwd]; exact b2
+          · rw [hlk]; exact b3
+      · have hce : cells'.cells i j = if i = x + 1 ∧ j = y ∧ tx.2 > 1 ∧ x + 1 < s.w then (s.cells.cells i j).markDirty
+            else s.cells.cells i j := by rw [hcells, if_neg h1]
         by_cases h2 : i = x + 1 ∧ j = y ∧ tx.2 > 1 ∧ x + 1 < s.w
-        · rw [if_pos h2] at hm; simp at hm
-        · rw [if_neg h2] at hl hm ⊢
-          obtain ⟨st', hg, hs1, hs2⟩ := inv.g1 i j hrij' hl hm
-          refine ⟨st', ?_, hs1, hs2⟩
-          rw [← hg, hgrid]
-          have hi : 0 ≤ i ∧ i < s.w ∧ 0 ≤ j ∧ j < s.h := by simp only [inRange_iff] at hrij'; omega
-          have n1 : ¬ (i = x + 1 ∧ j = y ∧ tx.2 > 1) := by
-            intro h; exact h2 ⟨h.1, h.2.1, h.2.2, by omega⟩
-          have n3 : ¬ (i = x + 2 ∧ j = y ∧ tx.2 > 1 ∧ t.grid (x + 2) y = .cont) := by
-            intro h
-            rcases inv.g2 i j hrij' (by rw [h.1, h.2.1]; exact h.2.2.2) with h' | h'
-            · rw [hl] at h'; exact absurd h' (by decide)
-            · exact hm h'
-          have n4 : ¬ (i = x + 1 ∧ j = y ∧ tx.2 ≤ 1 ∧ t.grid (x + 1) y = .cont) := by
-            intro h
-            rcases inv.g2 i j hrij' (by rw [h.1, h.2.1]; exact h.2.2.2) with h' | h'
-            · rw [hl] at h'; exact absurd h' (by decide)
-            · exact hm h'
-          have n5 : ¬ (i = x - 1 ∧ j = y ∧ t.grid x y = .cont) := by
-            intro h
-            have hl' := hl; have hm' := hm
-            rw [h.1, h.2.1] at hl' hm'
-            exact hq (by omega) hl' hm' h.2.2
-          simp only [n1, h1, n3, n4, n5, if_false]
+        · rw [hce, if_pos h2] at hm; simp at hm
+        · rw [if_neg h2] at hce
+          rw [hce] at hl hm ⊢
+          obtain ⟨st', nl, hg, hs1, hs2, hb⟩ := inv.g1 i j hrij' hl hm
+          refine ⟨st', nl, ?_, hs1, hs2, fun a1 a2 => ⟨(hb a1 a2).1, (hb a1 a2).2.congr (hwds i j) (hlk _ _) (hgcs i j)⟩⟩
+          rw [← hg]; exact hkeepgrid i j hrij' hl hm h1 h2
     · -- g2
       intro i j hrij hcont
       have hrij' := (hir i j).1 hrij
@@ -561,37 +729,43 @@ theorem visit_dirty {c : DrawCfg} (hrw : RwOk c.rw) (hct : c.Plain) {d : Option 
                   intro h; exact h1 ⟨by omega, h.2.1⟩
                 simp only [m1, m2, m3, m4, m5, if_false]
     · -- g3
-      intro i j hrij hl hm hsw' hlt
+      intro i j hrij hl hm b st hsh hlt
       have hrij' := (hir i j).1 hrij
       have hi : 0 ≤ i ∧ i < s.w ∧ 0 ≤ j ∧ j < s.h := by simp only [inRange_iff] at hrij'; omega
-      simp only [hcells] at hl hm hsw' hlt
-      rw [hgrid]
+      simp only at hrij hl hm hsh hlt ⊢
       by_cases h1 : i = x ∧ j = y
       · obtain ⟨rfl, rfl⟩ := h1
-        simp only [and_self, if_true, Cell.markClean_lastMain, Cell.markClean_lastComb, hcm, hcomb, hsw] at hsw'
-        simp [hsw']
-      · rw [if_neg h1] at hl hm hsw'
+        rw [hgrid] at hsh
+        have n0 : ¬ (i = i + 1 ∧ j = j ∧ tx.2 > 1) := by omega
+        rw [if_neg n0, if_pos ⟨rfl, rfl⟩] at hsh
+        injection hsh with _ hwd _
+        have hwd' : tx.2 > 1 := by simpa using hwd
+        rw [hgrid, if_pos ⟨rfl, rfl, hwd'⟩]
+      · have hce : cells'.cells i j = if i = x + 1 ∧ j = y ∧ tx.2 > 1 ∧ x + 1 < s.w then (s.cells.cells i j).markDirty
+            else s.cells.cells i j := by rw [hcells, if_neg h1]
         by_cases h2 : i = x + 1 ∧ j = y ∧ tx.2 > 1 ∧ x + 1 < s.w
-        · rw [if_pos h2] at hm; simp at hm
-        · rw [if_neg h2] at hl hm hsw'
-          have hold := inv.g3 i j hrij' hl hm hsw' hlt
+        · rw [hce, if_pos h2] at hm; simp at hm
+        · rw [if_neg h2] at hce
+          rw [hce] at hl hm
+          rw [hkeepgrid i j hrij' hl hm h1 h2] at hsh
+          have hold := inv.g3 i j hrij' hl hm b st hsh hlt
+          rw [hgrid]
           by_cases c1 : i + 1 = x + 1 ∧ j = y ∧ tx.2 > 1
           · rw [if_pos c1]
           · rw [if_neg c1]
             have n2 : ¬ (i + 1 = x ∧ j = y) := by
               intro h
               have e : i = x - 1 := by omega
-              have hl' := hl; have hm' := hm; have hs' := hsw'
+              have hl' := hl; have hm' := hm; have hs' := hsh
               rw [e, h.2] at hl' hm' hs'
-              have := inv.q (by omega) hxy.2.1 hl' hm'
-              omega
+              exact inv.q (by omega) hxy.2.1 hlock hl' hm' b st hs'
             have n3 : ¬ (i + 1 = x + 2 ∧ j = y ∧ tx.2 > 1 ∧ t.grid (x + 2) y = .cont) := by
               intro h; exact h2 ⟨by omega, h.2.1, h.2.2.1, by omega⟩
             have n4 : ¬ (i + 1 = x + 1 ∧ j = y ∧ tx.2 ≤ 1 ∧ t.grid (x + 1) y = .cont) := by
               intro h; exact h1 ⟨by omega, h.2.1⟩
             have n5 : ¬ (i + 1 = x - 1 ∧ j = y ∧ t.grid x y = .cont) := by
               intro h
-              obtain ⟨b, st, hb⟩ := inv.wf x y hr h.2.2
+              obtain ⟨b', st'', hb⟩ := inv.wf x y hr h.2.2
               have e : i + 1 = x - 1 := h.1
               rw [e, h.2.1] at hold
               rw [hold] at hb; exact absurd hb (by simp)
@@ -606,14 +780,16 @@ theorem visit_dirty {c : DrawCfg} (hrw : RwOk c.rw) (hct : c.Plain) {d : Option 
       · rw [if_neg hw]
     · intro _; simp only; rw [ATerm.putAt_pen, ← ht0]
     · -- q at x + tx.2
-      intro h1 h2 hl hm
-      simp only at h1 h2 hl hm ⊢
+      intro h1 h2 _ hl hm b st hsh
+      simp only at h1 h2 hl hm hsh
       rcases hwd12 with hw | hw
       · have e : x + tx.2 - 1 = x := by omega
-        rw [e] at hl hm ⊢
-        have hc := hcells x y
-        rw [if_pos ⟨rfl, rfl⟩] at hc
-        rw [hc]; simp only [Cell.markClean_lastMain, Cell.markClean_lastComb, hcm, hcomb, hsw]; omega
+        rw [e, hgrid] at hsh
+        have n0 : ¬ (x = x + 1 ∧ y = y ∧ tx.2 > 1) := by omega
+        rw [if_neg n0, if_pos ⟨rfl, rfl⟩] at hsh
+        injection hsh with _ hwd _
+        have : tx.2 > 1 := by simpa using hwd
+        omega
       · exfalso
         have e : x + tx.2 - 1 = x + 1 := by omega
         have n1 : ¬ (x + 1 = x ∧ y = y) := by omega
@@ -621,6 +797,23 @@ theorem visit_dirty {c : DrawCfg} (hrw : RwOk c.rw) (hct : c.Plain) {d : Option 
         have hc := hcells (x + 1) y
         rw [if_neg n1, if_pos h2'] at hc
         apply hm; rw [e, hc]; rfl
+  -- the cells this payload occupies
+  have hcov : ∃ cs, (t0.putAt x y tx.1 tx.2 style).covered = cs ++ t.covered ∧
+      (c.guardLocked = true → ∀ p ∈ cs, s.cells.locked p.1 p.2 = false) := by
+    rw [ATerm.putAt_covered, ht0cov]
+    by_cases hw : tx.2 > 1
+    · rw [if_pos hw]
+      refine ⟨[(x + 1, y), (x, y)], rfl, ?_⟩
+      intro hg p hp
+      simp only [List.mem_cons, List.mem_nil_iff, or_false] at hp
+      rcases hp with rfl | rfl
+      · exact hguard hg hw
+      · exact dirty_unlocked _ _ _ hd
+    · rw [if_neg hw]
+      refine ⟨[(x, y)], rfl, ?_⟩
+      intro _ p hp
+      simp only [List.mem_singleton] at hp; subst hp
+      exact dirty_unlocked _ _ _ hd
   -- assemble, according to whether the right neighbour gets marked dirty
   by_cases hwide : tx.2 > 1 ∧ x + 1 < s.w
   · have hr1 : (s.cells.setDirty x y false).inRange (x + 1) y := by
@@ -647,22 +840,13 @@ theorem visit_dirty {c : DrawCfg} (hrw : RwOk c.rw) (hct : c.Plain) {d : Option 
         · have n1 : ¬ (i = x + 1 ∧ j = y ∧ (s.cells.setDirty x y false).inRange (x + 1) y) := fun h => h2 ⟨h.1, h.2.1⟩
           have n2 : ¬ (i = x + 1 ∧ j = y ∧ tx.2 > 1 ∧ x + 1 < s.w) := fun h => h2 ⟨h.1, h.2.1⟩
           simp only [if_neg n1, if_neg h1, if_neg n2]
+    have hgcs : ∀ i j, ((s.cells.setDirty x y false).setDirty (x + 1) y true).getContent i j = s.cells.getContent i j := by
+      intro i j; rw [getContent_setDirty hrw _ (x + 1) y true hwok1 i j, hgc1]
     rw [hv]; simp only; rw [hterm]
-    have hinv := key _ _ (by simp) hcells rfl
-    refine { inv := hinv, wd_pos := by omega, wd_eq := ?_, gc_same := ?_, lock_same := ?_, other_same := ?_, done := ?_,
+    have hinv := key _ _ (by simp) hcells hgcs rfl
+    refine { inv := hinv, wd_pos := by omega, wd_eq := hwdeq, gc_same := hgcs, lock_same := ?_, other_same := ?_, done := ?_,
              w_same := rfl, h_same := rfl, style_same := rfl, cursor_same := ⟨rfl, rfl, rfl, rfl⟩, flags_same := ⟨rfl, rfl⟩,
-             writes := by simp [hd, ht0w], vis_same := by simp [ht0v] }
-    · rw [hgc]; simp only
-      rw [← htx]; simp only [Scr.cellText]
-      have := obsWidth_pos hrw cm
-      have h1 : ¬ obsWidth c.rw cm < 1 := by omega
-      simp only [h1, if_false]
-      split
-      · right; rw [← htx] at hwide; simp only [Scr.cellText, h1, if_false] at hwide
-        rename_i hlast; rw [if_pos hlast] at hwide; simp at hwide
-      · left; rfl
-    · intro i j
-      rw [getContent_setDirty hrw _ (x + 1) y true hwok1 i j, hgc1]
+             writes := by simp [hd, ht0w], vis_same := by simp [ht0v], covers := hcov }
     · intro i j; simp only [hcells]; split
       · simp [Cell.markClean]
       · split <;> simp
@@ -686,21 +870,10 @@ theorem visit_dirty {c : DrawCfg} (hrw : RwOk c.rw) (hct : c.Plain) {d : Option 
       have n2 : ¬ (i = x + 1 ∧ j = y ∧ tx.2 > 1 ∧ x + 1 < s.w) := fun h => hwide ⟨h.2.2.1, h.2.2.2⟩
       rw [if_neg n2]
     rw [hv]; simp only; rw [hterm]
-    have hinv := key _ _ (by simp) hcells rfl
-    refine { inv := hinv, wd_pos := by omega, wd_eq := ?_, gc_same := hgc1, lock_same := ?_, other_same := ?_, done := ?_,
+    have hinv := key _ _ (by simp) hcells hgc1 rfl
+    refine { inv := hinv, wd_pos := by omega, wd_eq := hwdeq, gc_same := hgc1, lock_same := ?_, other_same := ?_, done := ?_,
              w_same := rfl, h_same := rfl, style_same := rfl, cursor_same := ⟨rfl, rfl, rfl, rfl⟩, flags_same := ⟨rfl, rfl⟩,
-             writes := by simp [hd, ht0w], vis_same := by simp [ht0v] }
-    · rw [hgc]; simp only
-      have hx := obsWidth_pos hrw cm
-      have htx' := htx
-      simp only [Scr.cellText] at htx'
-      have h1 : ¬ obsWidth c.rw cm < 1 := by omega
-      simp only [h1, if_false] at htx'
-      by_cases hlast : x > s.w - obsWidth c.rw cm
-      · rw [if_pos hlast] at htx'
-        right; rw [← htx']; simp only; omega
-      · rw [if_neg hlast] at htx'
-        left; rw [← htx']
+             writes := by simp [hd, ht0w], vis_same := by simp [ht0v], covers := hcov }
     · intro i j; simp only [hc1]; split
       · simp [Cell.markClean]
       · rfl
@@ -720,7 +893,7 @@ theorem visit_post {c : DrawCfg} (hrw : RwOk c.rw) (hct : c.Plain) {d : Option S
     {x y : Int} (inv : PassInv c d s t x y) (hr : s.cells.inRange x y) :
     VisitPost c d s t x y (s.visit c x y).1 (t.applyAll (s.visit c x y).2.1) (s.visit c x y).2.2 := by
   cases hd : s.cells.dirty x y
-  · exact visit_clean hrw inv hr hd
+  · exact visit_clean hrw hct inv hr hd
   · exact visit_dirty hrw hct inv hr hd
 
 theorem drawRow_succ (c : DrawCfg) (y : Int) (fuel : Nat) (x : Int) (s : Scr) :
@@ -736,19 +909,89 @@ theorem applyAll_append (t : ATerm) (l1 l2 : List Cmd) : t.applyAll (l1 ++ l2) =
 
 @[simp] theorem applyAll_nil (t : ATerm) : t.applyAll [] = t := rfl
 
-theorem visits_ge (rw : Rune → Int) (b : Buf) (y : Int) (fuel : Nat) (x0 i : Int) (h : b.w ≤ x0) :
-    visits rw b y fuel x0 i = false := by
+theorem visitsG_ge (c : DrawCfg) (b : Buf) (y : Int) (fuel : Nat) (x0 i : Int) (h : b.w ≤ x0) :
+    visitsG c b y fuel x0 i = false := by
   cases fuel with
   | zero => rfl
-  | succ n => simp only [visits]; rw [if_neg (by omega)]
+  | succ n => simp only [visitsG]; rw [if_neg (by omega)]
 
-theorem visits_congr (rw : Rune → Int) (b b' : Buf) (y : Int) (hw : b'.w = b.w)
-    (hg : ∀ i j, b'.getContent i j = b.getContent i j) :
-    ∀ (f : Nat) (a i : Int), visits rw b' y f a i = visits rw b y f a i := by
+/-- the loop's step at column `x` reads the cells (x,y) and (x+1,y) only -/
+theorem stepW_congr (c : DrawCfg) (b b' : Buf) (x y : Int) (hw : b'.w = b.w) (hh : b'.h = b.h)
+    (h0 : b'.cells x y = b.cells x y) (h1 : b'.cells (x + 1) y = b.cells (x + 1) y) : stepW c b' x y = stepW c b x y := by
+  simp only [stepW, getContent, Buf.locked, dirty, inRange_iff, hw, hh, h0, h1]
+
+theorem stepW_nonneg {c : DrawCfg} (hrw : RwOk c.rw) (b : Buf) (hw : ∀ i j, WOk c.rw (b.cells i j)) (x y : Int) :
+    0 ≤ stepW c b x y ∧ (b.inRange x y → 1 ≤ stepW c b x y) := by
+  by_cases hr : b.inRange x y
+  · have hg := getContent_wok hrw b x y hr (hw x y)
+    have hp := obsWidth_pos hrw (b.cells x y).currMain
+    unfold stepW; rw [hg]; simp only
+    split
+    · exact ⟨by omega, fun _ => by omega⟩
+    · exact ⟨by omega, fun _ => by omega⟩
+  · have hg : b.getContent x y = (0, [], {}, 0) := by simp [getContent, hr]
+    unfold stepW; rw [hg]; simp only
+    split
+    · exact ⟨by omega, fun h => absurd h hr⟩
+    · exact ⟨by omega, fun h => absurd h hr⟩
+
+/-- the walk from column `a` on only reads the cells of row `y` from column `a` on -/
+theorem visitsG_congr_from (c : DrawCfg) (b b' : Buf) (y a : Int) (hw : b'.w = b.w) (hh : b'.h = b.h)
+    (hc : ∀ i, a ≤ i → b'.cells i y = b.cells i y) (hpos : ∀ i, a ≤ i → 0 ≤ stepW c b i y) :
+    ∀ (f : Nat) (x0 i : Int), a ≤ x0 → visitsG c b' y f x0 i = visitsG c b y f x0 i := by
   intro f
   induction f with
-  | zero => intro a i; rfl
-  | succ m ih => intro a i; simp only [visits, hg, ih, hw]
+  | zero => intro x0 i _; rfl
+  | succ m ih =>
+    intro x0 i hx0
+    simp only [visitsG, hw]
+    rw [stepW_congr c b b' x0 y hw hh (hc x0 hx0) (hc (x0 + 1) (by omega))]
+    rw [ih _ _ (by have := hpos x0 hx0; omega)]
+
+theorem visitedG_congr_row (c : DrawCfg) (b b' : Buf) (y : Int) (hw : b'.w = b.w) (hh : b'.h = b.h)
+    (hc : ∀ i, b'.cells i y = b.cells i y) (hpos : ∀ i, 0 ≤ stepW c b i y) (x : Int) :
+    visitedG c b' x y = visitedG c b x y := by
+  simp only [visitedG, hw]
+  by_cases hx : (0 : Int) ≤ 0
+  · exact visitsG_congr_from c b b' y 0 hw hh (fun i _ => hc i) (fun i _ => hpos i) _ _ _ hx
+  · omega
+
+/-- when the walk does not depend on the Dirty flags (pinned drawCell, or the walk fix) it is determined by contents,
+locks and dimensions -/
+theorem stepW_static (c : DrawCfg) (hs : c.guardLocked = false ∨ c.walkGuard = true) (b b' : Buf) (hw : b'.w = b.w)
+    (hh : b'.h = b.h) (hg : ∀ i j, b'.getContent i j = b.getContent i j)
+    (hl : ∀ i j, (b'.cells i j).lock = (b.cells i j).lock) (x y : Int) : stepW c b' x y = stepW c b x y := by
+  unfold stepW
+  rw [hg, locked_congr b b' hw hh hl]
+  rcases hs with h | h
+  · simp [h]
+  · simp [h]
+
+theorem visitsG_static (c : DrawCfg) (hs : c.guardLocked = false ∨ c.walkGuard = true) (b b' : Buf) (hw : b'.w = b.w)
+    (hh : b'.h = b.h) (hg : ∀ i j, b'.getContent i j = b.getContent i j)
+    (hl : ∀ i j, (b'.cells i j).lock = (b.cells i j).lock) (y : Int) :
+    ∀ (f : Nat) (x0 i : Int), visitsG c b' y f x0 i = visitsG c b y f x0 i := by
+  intro f
+  induction f with
+  | zero => intro x0 i; rfl
+  | succ m ih => intro x0 i; simp only [visitsG, hw, stepW_static c hs b b' hw hh hg hl, ih]
+
+theorem visitedG_static (c : DrawCfg) (hs : c.guardLocked = false ∨ c.walkGuard = true) (b b' : Buf) (hw : b'.w = b.w)
+    (hh : b'.h = b.h) (hg : ∀ i j, b'.getContent i j = b.getContent i j)
+    (hl : ∀ i j, (b'.cells i j).lock = (b.cells i j).lock) (x y : Int) : visitedG c b' x y = visitedG c b x y := by
+  simp only [visitedG, hw]; exact visitsG_static c hs b b' hw hh hg hl y _ _ _
+
+/-- without the guard the walk is the pinned one -/
+theorem visitsG_eq_visits (c : DrawCfg) (hg : c.guardLocked = false) (b : Buf) (y : Int) :
+    ∀ (f : Nat) (x0 i : Int), visitsG c b y f x0 i = visits c.rw b y f x0 i := by
+  intro f
+  induction f with
+  | zero => intro x0 i; rfl
+  | succ m ih => intro x0 i; simp only [visitsG, visits, stepW, hg, ih]; simp
+
+theorem visitedG_eq_visited (c : DrawCfg) (hg : c.guardLocked = false) (b : Buf) (x y : Int) :
+    visitedG c b x y = visited c.rw b x y := by
+  simp only [visitedG, visited]; exact visitsG_eq_visits c hg b y _ _ _
 
 /-- what a pass over (the rest of) a row guarantees -/
 structure RowPost (c : DrawCfg) (d : Option Style) (s : Scr) (t : ATerm) (x0 y : Int) (fuel : Nat)
@@ -759,7 +1002,7 @@ structure RowPost (c : DrawCfg) (d : Option Style) (s : Scr) (t : ATerm) (x0 y :
   gc_same : ∀ i j, s'.cells.getContent i j = s.cells.getContent i j
   lock_same : ∀ i j, (s'.cells.cells i j).lock = (s.cells.cells i j).lock
   other_same : ∀ i j, (j ≠ y ∨ i < x0) → s'.cells.cells i j = s.cells.cells i j
-  done : ∀ i, visits c.rw s.cells y fuel x0 i = true → (s.cells.cells i y).lock = false →
+  done : ∀ i, visitsG c s.cells y fuel x0 i = true → (s.cells.cells i y).lock = false →
     (s'.cells.cells i y).lastMain ≠ 0 ∧ (s'.cells.cells i y).last = (s'.cells.cells i y).content
   w_same : s'.w = s.w
   h_same : s'.h = s.h
@@ -769,30 +1012,12 @@ structure RowPost (c : DrawCfg) (d : Option Style) (s : Scr) (t : ATerm) (x0 y :
   vis_same : t'.visible = t.visible ∧ t'.shape = t.shape
   /-- cells that received payload in this pass were dirty when the pass reached them, and lie in this row right of x0 -/
   writes : ∃ ws, t'.writes = ws ++ t.writes ∧ ∀ p ∈ ws, p.2 = y ∧ x0 ≤ p.1 ∧ s.cells.dirty p.1 p.2 = true ∧
-    visits c.rw s.cells y fuel x0 p.1 = true
+    visitsG c s.cells y fuel x0 p.1 = true
+  covers : ∃ cs, t'.covered = cs ++ t.covered ∧ (c.guardLocked = true → ∀ p ∈ cs, s.cells.locked p.1 p.2 = false)
 
-theorem visits_self (rw : Rune → Int) (b : Buf) (y : Int) (fuel : Nat) (x0 : Int) (h : x0 < b.w) :
-    visits rw b y (fuel + 1) x0 x0 = true := by
-  simp [visits, h]
-
-theorem visits_lt (rw : Rune → Int) (b : Buf) (y : Int) (hw : ∀ i j, 1 ≤ (b.getContent i j).2.2.2 ∨ ¬ b.inRange i j) :
-    ∀ (fuel : Nat) (x0 i : Int), 0 ≤ x0 → 0 ≤ y → y < b.h → visits rw b y fuel x0 i = true → x0 ≤ i := by
-  intro fuel
-  induction fuel with
-  | zero => intro x0 i _ _ _ h; simp [visits] at h
-  | succ n ih =>
-    intro x0 i h0 hy0 hy1 h
-    simp only [visits] at h
-    split at h
-    · rename_i hlt
-      split at h
-      · omega
-      · have hr : b.inRange x0 y := by simp only [inRange_iff]; omega
-        have := ih (x0 + (b.getContent x0 y).2.2.2) i (by rcases hw x0 y with h' | h'; omega; exact absurd hr h') hy0 hy1 h
-        rcases hw x0 y with h' | h'
-        · omega
-        · exact absurd hr h'
-    · simp at h
+theorem visitsG_self (c : DrawCfg) (b : Buf) (y : Int) (fuel : Nat) (x0 : Int) (h : x0 < b.w) :
+    visitsG c b y (fuel + 1) x0 x0 = true := by
+  simp [visitsG, h]
 
 theorem drawRow_post {c : DrawCfg} (hrw : RwOk c.rw) (hct : c.Plain) {d : Option Style} (y : Int) :
     ∀ (fuel : Nat) (x : Int) (s : Scr) (t : ATerm), 0 ≤ x → 0 ≤ y → y < s.h → PassInv c d s t x y →
@@ -802,9 +1027,10 @@ theorem drawRow_post {c : DrawCfg} (hrw : RwOk c.rw) (hct : c.Plain) {d : Option
   | zero =>
     intro x s t _ _ _ inv
     exact { sync := inv.toSyncInv, kcur := inv.kcur, kpen := inv.kpen, gc_same := fun _ _ => rfl, lock_same := fun _ _ => rfl,
-            other_same := fun _ _ _ => rfl, done := by intro i h; simp [visits] at h, w_same := rfl, h_same := rfl,
+            other_same := fun _ _ _ => rfl, done := by intro i h; simp [visitsG] at h, w_same := rfl, h_same := rfl,
             style_same := rfl, cursor_same := ⟨rfl, rfl, rfl, rfl⟩, flags_same := ⟨rfl, rfl⟩, vis_same := ⟨rfl, rfl⟩,
-            writes := ⟨[], by simp [Scr.drawRow], by simp⟩ }
+            writes := ⟨[], by simp [Scr.drawRow], by simp⟩,
+            covers := ⟨[], by simp [Scr.drawRow], by intro _ p hp; simp at hp⟩ }
   | succ n ih =>
     intro x s t hx0 hy0 hy1 inv
     rw [drawRow_succ]
@@ -818,16 +1044,27 @@ theorem drawRow_post {c : DrawCfg} (hrw : RwOk c.rw) (hct : c.Plain) {d : Option
       have rp := ih (x + (s.visit c x y).2.2) (s.visit c x y).1 (t.applyAll (s.visit c x y).2.1)
         (by have := vp.wd_pos; omega) hy0 hy1' vp.inv
       have hwd := vp.wd_pos
+      have hcw : (s.visit c x y).1.cells.w = s.cells.w := by rw [vp.inv.cw, vp.w_same, inv.cw]
+      have hch : (s.visit c x y).1.cells.h = s.cells.h := by rw [vp.inv.ch, vp.h_same, inv.ch]
+      -- right of the visit the buffer is untouched, so the walk continues the same way on both buffers
+      have hwalk : ∀ i, visitsG c (s.visit c x y).1.cells y n (x + (s.visit c x y).2.2) i =
+          visitsG c s.cells y n (x + (s.visit c x y).2.2) i := by
+        intro i
+        exact visitsG_congr_from c s.cells _ y (x + (s.visit c x y).2.2) hcw hch
+          (fun i' hi' => vp.other_same i' y (Or.inr (Or.inr hi')))
+          (fun i' _ => (stepW_nonneg hrw s.cells inv.wok i' y).1) n _ i (Int.le_refl _)
+      have hlks : ∀ i j, (s.visit c x y).1.cells.locked i j = s.cells.locked i j :=
+        locked_congr _ _ hcw hch vp.lock_same
       refine { sync := rp.sync, kcur := rp.kcur, kpen := rp.kpen, gc_same := ?_, lock_same := ?_, other_same := ?_,
                done := ?_, w_same := by rw [rp.w_same, vp.w_same], h_same := by rw [rp.h_same, vp.h_same],
                style_same := by rw [rp.style_same, vp.style_same], cursor_same := ?_, flags_same := ?_, vis_same := ?_,
-               writes := ?_ }
+               writes := ?_, covers := ?_ }
       · intro i j; rw [rp.gc_same, vp.gc_same]
       · intro i j; rw [rp.lock_same, vp.lock_same]
       · intro i j hne
         rw [rp.other_same i j (by omega), vp.other_same i j (by omega)]
       · intro i hv hl
-        simp only [visits, if_pos (show x < s.cells.w by rw [inv.cw]; exact hlt)] at hv
+        simp only [visitsG, if_pos (show x < s.cells.w by rw [inv.cw]; exact hlt)] at hv
         by_cases hix : i = x
         · subst hix
           have hdone := vp.done hl
@@ -835,21 +1072,12 @@ theorem drawRow_post {c : DrawCfg} (hrw : RwOk c.rw) (hct : c.Plain) {d : Option
           exact hdone
         · rw [if_neg hix] at hv
           -- the model's step and the spec's step reach the same columns
-          have hv' : visits c.rw (s.visit c x y).1.cells y n (x + (s.visit c x y).2.2) i = true := by
-            have hsame : ∀ (f : Nat) (a b : Int), visits c.rw (s.visit c x y).1.cells y f a b = visits c.rw s.cells y f a b := by
-              intro f
-              induction f with
-              | zero => intro a b; rfl
-              | succ m ihm =>
-                intro a b
-                simp only [visits, vp.gc_same, ihm]
-                have : (s.visit c x y).1.cells.w = s.cells.w := by rw [vp.inv.cw, vp.w_same, inv.cw]
-                rw [this]
-            rw [hsame]
+          have hv' : visitsG c (s.visit c x y).1.cells y n (x + (s.visit c x y).2.2) i = true := by
+            rw [hwalk]
             rcases vp.wd_eq with e | e
             · rw [e]; exact hv
             · exfalso
-              rw [visits_ge _ _ _ _ _ _ (by rw [inv.cw]; omega)] at hv; simp at hv
+              rw [visitsG_ge _ _ _ _ _ _ (by rw [inv.cw]; omega)] at hv; simp at hv
           have hl' : ((s.visit c x y).1.cells.cells i y).lock = false := by rw [vp.lock_same]; exact hl
           exact rp.done i hv' hl'
       · obtain ⟨a1, a2, a3, a4⟩ := rp.cursor_same; obtain ⟨b1, b2, b3, b4⟩ := vp.cursor_same
@@ -864,24 +1092,21 @@ theorem drawRow_post {c : DrawCfg} (hrw : RwOk c.rw) (hct : c.Plain) {d : Option
         have hkeep : ∀ p : Int × Int, p.2 = y → x + (s.visit c x y).2.2 ≤ p.1 →
             (s.visit c x y).1.cells.dirty p.1 p.2 = true → s.cells.dirty p.1 p.2 = true := by
           intro p p1 p2 p3
-          have hcw : (s.visit c x y).1.cells.w = s.cells.w := by rw [vp.inv.cw, vp.w_same, inv.cw]
-          have hch : (s.visit c x y).1.cells.h = s.cells.h := by rw [vp.inv.ch, vp.h_same, inv.ch]
           have hsame := vp.other_same p.1 p.2 (Or.inr (Or.inr p2))
           simp only [dirty, inRange_iff, hcw, hch, hsame] at p3 ⊢
           exact p3
         -- and the spec's column walk reaches it from x too
         have hvis : ∀ p : Int × Int, x + (s.visit c x y).2.2 ≤ p.1 →
-            visits c.rw (s.visit c x y).1.cells y n (x + (s.visit c x y).2.2) p.1 = true →
-            visits c.rw s.cells y (n + 1) x p.1 = true := by
+            visitsG c (s.visit c x y).1.cells y n (x + (s.visit c x y).2.2) p.1 = true →
+            visitsG c s.cells y (n + 1) x p.1 = true := by
           intro p p2 p4
-          have hcw : (s.visit c x y).1.cells.w = s.cells.w := by rw [vp.inv.cw, vp.w_same, inv.cw]
-          rw [visits_congr c.rw s.cells _ y hcw vp.gc_same] at p4
-          simp only [visits, if_pos (show x < s.cells.w by rw [inv.cw]; exact hlt)]
+          rw [hwalk] at p4
+          simp only [visitsG, if_pos (show x < s.cells.w by rw [inv.cw]; exact hlt)]
           have hne : ¬ p.1 = x := by omega
           rw [if_neg hne]
           rcases vp.wd_eq with e | e
           · rw [← e]; exact p4
-          · exfalso; rw [visits_ge _ _ _ _ _ _ (by rw [inv.cw]; omega)] at p4; simp at p4
+          · exfalso; rw [visitsG_ge _ _ _ _ _ _ (by rw [inv.cw]; omega)] at p4; simp at p4
         by_cases hd : s.cells.dirty x y = true
         · rw [if_pos hd] at hws
           refine ⟨ws ++ [(x, y)], by rw [hws]; simp, ?_⟩
@@ -890,19 +1115,27 @@ theorem drawRow_post {c : DrawCfg} (hrw : RwOk c.rw) (hct : c.Plain) {d : Option
           · obtain ⟨p1, p2, p3, p4⟩ := hmem p hp
             exact ⟨p1, by omega, hkeep p p1 p2 p3, hvis p p2 p4⟩
           · simp only [List.mem_singleton] at hp; subst hp
-            exact ⟨rfl, by simp, hd, visits_self _ _ _ _ _ (by rw [inv.cw]; exact hlt)⟩
+            exact ⟨rfl, by simp, hd, visitsG_self _ _ _ _ _ (by rw [inv.cw]; exact hlt)⟩
         · have hd' : s.cells.dirty x y = false := by cases h : s.cells.dirty x y <;> simp_all
           rw [hd'] at hws; simp only [Bool.false_eq_true, if_false] at hws
           refine ⟨ws, hws, ?_⟩
           intro p hp
           obtain ⟨p1, p2, p3, p4⟩ := hmem p hp
           exact ⟨p1, by omega, hkeep p p1 p2 p3, hvis p p2 p4⟩
+      · obtain ⟨cs2, h2, m2⟩ := rp.covers
+        obtain ⟨cs1, h1, m1⟩ := vp.covers
+        refine ⟨cs2 ++ cs1, by rw [h2, h1]; simp, ?_⟩
+        intro hg p hp
+        rcases List.mem_append.1 hp with hp | hp
+        · rw [← hlks]; exact m2 hg p hp
+        · exact m1 hg p hp
     · rw [if_neg hlt]
       exact { sync := inv.toSyncInv, kcur := inv.kcur, kpen := inv.kpen, gc_same := fun _ _ => rfl, lock_same := fun _ _ => rfl,
               other_same := fun _ _ _ => rfl,
-              done := by intro i h; rw [visits_ge _ _ _ _ _ _ (by rw [inv.cw]; omega)] at h; simp at h,
+              done := by intro i h; rw [visitsG_ge _ _ _ _ _ _ (by rw [inv.cw]; omega)] at h; simp at h,
               w_same := rfl, h_same := rfl, style_same := rfl, cursor_same := ⟨rfl, rfl, rfl, rfl⟩, flags_same := ⟨rfl, rfl⟩,
-              vis_same := ⟨rfl, rfl⟩, writes := ⟨[], by simp, by simp⟩ }
+              vis_same := ⟨rfl, rfl⟩, writes := ⟨[], by simp, by simp⟩,
+              covers := ⟨[], by simp, by intro _ p hp; simp at hp⟩ }
 
 end Tcell
 
@@ -918,7 +1151,7 @@ structure RowsPost (c : DrawCfg) (d : Option Style) (s : Scr) (t : ATerm) (y0 : 
   gc_same : ∀ i j, s'.cells.getContent i j = s.cells.getContent i j
   lock_same : ∀ i j, (s'.cells.cells i j).lock = (s.cells.cells i j).lock
   other_same : ∀ i j, j < y0 → s'.cells.cells i j = s.cells.cells i j
-  done : ∀ y i, y0 ≤ y → y < y0 + fuel → y < s.h → visits c.rw s.cells y s.w.toNat 0 i = true → (s.cells.cells i y).lock = false →
+  done : ∀ y i, y0 ≤ y → y < y0 + fuel → y < s.h → visitsG c s.cells y s.w.toNat 0 i = true → (s.cells.cells i y).lock = false →
     (s'.cells.cells i y).lastMain ≠ 0 ∧ (s'.cells.cells i y).last = (s'.cells.cells i y).content
   w_same : s'.w = s.w
   h_same : s'.h = s.h
@@ -927,7 +1160,8 @@ structure RowsPost (c : DrawCfg) (d : Option Style) (s : Scr) (t : ATerm) (y0 : 
   flags_same : s'.clear = s.clear ∧ s'.fini = s.fini
   vis_same : t'.visible = t.visible ∧ t'.shape = t.shape
   writes : ∃ ws, t'.writes = ws ++ t.writes ∧ ∀ p ∈ ws, y0 ≤ p.2 ∧ s.cells.dirty p.1 p.2 = true ∧
-    visits c.rw s.cells p.2 s.w.toNat 0 p.1 = true
+    visitsG c s.cells p.2 s.w.toNat 0 p.1 = true
+  covers : ∃ cs, t'.covered = cs ++ t.covered ∧ (c.guardLocked = true → ∀ p ∈ cs, s.cells.locked p.1 p.2 = false)
 
 theorem drawRows_succ (c : DrawCfg) (fuel : Nat) (y : Int) (s : Scr) :
     Scr.drawRows c (fuel + 1) y s =
@@ -949,7 +1183,8 @@ theorem drawRows_post {c : DrawCfg} (hrw : RwOk c.rw) (hct : c.Plain) {d : Optio
     exact { sync := inv, kcur := kc, kpen := kp, gc_same := fun _ _ => rfl, lock_same := fun _ _ => rfl,
             other_same := fun _ _ _ => rfl, done := by intro y' i h1 h2; omega, w_same := rfl, h_same := rfl,
             style_same := rfl, cursor_same := ⟨rfl, rfl, rfl, rfl⟩, flags_same := ⟨rfl, rfl⟩, vis_same := ⟨rfl, rfl⟩,
-            writes := ⟨[], by simp [Scr.drawRows], by simp⟩ }
+            writes := ⟨[], by simp [Scr.drawRows], by simp⟩,
+            covers := ⟨[], by simp [Scr.drawRows], by intro _ p hp; simp at hp⟩ }
   | succ n ih =>
     intro y s t hy0 inv kc kp dc
     rw [drawRows_succ]
@@ -963,10 +1198,17 @@ theorem drawRows_post {c : DrawCfg} (hrw : RwOk c.rw) (hct : c.Plain) {d : Optio
         rp.sync rp.kcur rp.kpen (by intro d' hd'; rw [rp.style_same]; exact dc d' hd')
       have hcw : (Scr.drawRow c y s.w.toNat 0 s).1.cells.w = s.cells.w := by rw [rp.sync.cw, rp.w_same, inv.cw]
       have hch : (Scr.drawRow c y s.w.toNat 0 s).1.cells.h = s.cells.h := by rw [rp.sync.ch, rp.h_same, inv.ch]
+      -- rows other than y are untouched by the pass over row y, so the walk over them is the same on both buffers
+      have hrowwalk : ∀ y', y' ≠ y → ∀ f i, visitsG c (Scr.drawRow c y s.w.toNat 0 s).1.cells y' f 0 i = visitsG c s.cells y' f 0 i := by
+        intro y' hy' f i
+        exact visitsG_congr_from c s.cells _ y' 0 hcw hch (fun i' _ => rp.other_same i' y' (Or.inl hy'))
+          (fun i' _ => (stepW_nonneg hrw s.cells inv.wok i' y').1) f 0 i (Int.le_refl _)
+      have hlks : ∀ i j, (Scr.drawRow c y s.w.toNat 0 s).1.cells.locked i j = s.cells.locked i j :=
+        locked_congr _ _ hcw hch rp.lock_same
       refine { sync := rs.sync, kcur := rs.kcur, kpen := rs.kpen, gc_same := ?_, lock_same := ?_, other_same := ?_,
                done := ?_, w_same := by rw [rs.w_same, rp.w_same], h_same := by rw [rs.h_same, rp.h_same],
                style_same := by rw [rs.style_same, rp.style_same], cursor_same := ?_, flags_same := ?_, vis_same := ?_,
-               writes := ?_ }
+               writes := ?_, covers := ?_ }
       · intro i j; rw [rs.gc_same, rp.gc_same]
       · intro i j; rw [rs.lock_same, rp.lock_same]
       · intro i j hj; rw [rs.other_same i j (by omega), rp.other_same i j (Or.inl (by omega))]
@@ -975,8 +1217,8 @@ theorem drawRows_post {c : DrawCfg} (hrw : RwOk c.rw) (hct : c.Plain) {d : Optio
         · subst hy
           rw [rs.other_same i y' (by omega)]
           exact rp.done i hv hl
-        · have hv' : visits c.rw (Scr.drawRow c y s.w.toNat 0 s).1.cells y' (Scr.drawRow c y s.w.toNat 0 s).1.w.toNat 0 i = true := by
-            rw [visits_congr c.rw s.cells _ y' hcw rp.gc_same, rp.w_same]; exact hv
+        · have hv' : visitsG c (Scr.drawRow c y s.w.toNat 0 s).1.cells y' (Scr.drawRow c y s.w.toNat 0 s).1.w.toNat 0 i = true := by
+            rw [hrowwalk y' hy, rp.w_same]; exact hv
           have hl' : ((Scr.drawRow c y s.w.toNat 0 s).1.cells.cells i y').lock = false := by rw [rp.lock_same]; exact hl
           exact rs.done y' i (by omega) (by omega) (by rw [rp.h_same]; exact h3) hv' hl'
       · obtain ⟨a1, a2, a3, a4⟩ := rs.cursor_same; obtain ⟨b1, b2, b3, b4⟩ := rp.cursor_same
@@ -995,15 +1237,23 @@ theorem drawRows_post {c : DrawCfg} (hrw : RwOk c.rw) (hct : c.Plain) {d : Optio
           · have hsame := rp.other_same p.1 p.2 (Or.inl (by omega))
             simp only [dirty, inRange_iff, hcw, hch, hsame] at p2 ⊢
             exact p2
-          · rw [visits_congr c.rw s.cells _ p.2 hcw rp.gc_same, rp.w_same] at p3; exact p3
+          · rw [hrowwalk p.2 (by omega), rp.w_same] at p3; exact p3
         · obtain ⟨p1, _, p3, p4⟩ := hm1 p hp
           exact ⟨by omega, p3, by rw [p1]; exact p4⟩
+      · obtain ⟨cs2, h2, m2⟩ := rs.covers
+        obtain ⟨cs1, h1, m1⟩ := rp.covers
+        refine ⟨cs2 ++ cs1, by rw [h2, h1]; simp, ?_⟩
+        intro hg p hp
+        rcases List.mem_append.1 hp with hp | hp
+        · rw [← hlks]; exact m2 hg p hp
+        · exact m1 hg p hp
     · rw [if_neg hlt]
       exact { sync := inv, kcur := kc, kpen := kp, gc_same := fun _ _ => rfl, lock_same := fun _ _ => rfl,
               other_same := fun _ _ _ => rfl,
               done := by intro y' i h1 _ h3; omega,
               w_same := rfl, h_same := rfl, style_same := rfl, cursor_same := ⟨rfl, rfl, rfl, rfl⟩, flags_same := ⟨rfl, rfl⟩,
-              vis_same := ⟨rfl, rfl⟩, writes := ⟨[], by simp, by simp⟩ }
+              vis_same := ⟨rfl, rfl⟩, writes := ⟨[], by simp, by simp⟩,
+              covers := ⟨[], by simp, by intro _ p hp; simp at hp⟩ }
 
 end Tcell
 
@@ -1019,8 +1269,8 @@ theorem SyncInv.weaken {c : DrawCfg} {d : Option Style} {s : Scr} {t : ATerm} (i
   { tw := inv.tw, th := inv.th, cw := inv.cw, ch := inv.ch, wok := inv.wok, valid := inv.valid, g2 := inv.g2, wf := inv.wf,
     g3 := inv.g3,
     g1 := fun x y hr hl hm => by
-      obtain ⟨st', h1, h2, _⟩ := inv.g1 x y hr hl hm
-      exact ⟨st', h1, h2, by intro _ d' hd'; exact absurd hd' (by simp)⟩ }
+      obtain ⟨st', nl, h1, h2, _, h4⟩ := inv.g1 x y hr hl hm
+      exact ⟨st', nl, h1, h2, by intro _ d' hd'; exact absurd hd' (by simp), h4⟩ }
 
 /-- when everything is dirty the invariant does not depend on the recorded default style -/
 theorem SyncInv.of_allDirty {c : DrawCfg} {d d' : Option Style} {s : Scr} {t : ATerm} (inv : SyncInv c d s t)
@@ -1058,7 +1308,7 @@ structure DrawPost (c : DrawCfg) (d : Option Style) (s : Scr) (t : ATerm) (s' : 
   sync : SyncInv c d s' t'
   gc_same : ∀ i j, s'.cells.getContent i j = s.cells.getContent i j
   lock_same : ∀ i j, (s'.cells.cells i j).lock = (s.cells.cells i j).lock
-  done : ∀ x y, s.cells.inRange x y → visited c.rw s.cells x y = true → (s.cells.cells x y).lock = false →
+  done : ∀ x y, s.cells.inRange x y → visitedG c s.cells x y = true → (s.cells.cells x y).lock = false →
     (s'.cells.cells x y).lastMain ≠ 0 ∧ (s'.cells.cells x y).last = (s'.cells.cells x y).content
   w_same : s'.w = s.w
   h_same : s'.h = s.h
@@ -1073,12 +1323,15 @@ structure DrawPost (c : DrawCfg) (d : Option Style) (s : Scr) (t : ATerm) (s' : 
     (¬ s.cells.inRange s.cursorx s.cursory →
       (c.hasHide = true → t'.visible = some false) ∧
       (c.hasHide = false → t'.cur = some (t.clampX s.cells.w, t.clampY s.cells.h)))
-  writes : ∃ ws, t'.writes = ws ++ t.writes ∧ ∀ p ∈ ws, s.cells.dirty p.1 p.2 = true ∧ visited c.rw s.cells p.1 p.2 = true
+  writes : ∃ ws, t'.writes = ws ++ t.writes ∧ ∀ p ∈ ws, s.cells.dirty p.1 p.2 = true ∧ visitedG c s.cells p.1 p.2 = true
+  /-- with the guard compiled in, no cell a payload of this draw occupies is locked -/
+  covers : ∃ cs, t'.covered = cs ++ t.covered ∧ (c.guardLocked = true → ∀ p ∈ cs, s.cells.locked p.1 p.2 = false)
 
 theorem hideCursor_apply (c : DrawCfg) (s : Scr) (t : ATerm) :
     (t.applyAll (s.hideCursor c).2).grid = t.grid ∧ (t.applyAll (s.hideCursor c).2).w = t.w ∧
     (t.applyAll (s.hideCursor c).2).h = t.h ∧ (t.applyAll (s.hideCursor c).2).chaos = t.chaos ∧
-    (t.applyAll (s.hideCursor c).2).writes = t.writes ∧ (t.applyAll (s.hideCursor c).2).pen = t.pen ∧
+    ((t.applyAll (s.hideCursor c).2).writes = t.writes ∧ (t.applyAll (s.hideCursor c).2).covered = t.covered) ∧
+    (t.applyAll (s.hideCursor c).2).pen = t.pen ∧
     (s.hideCursor c).1.cells = s.cells ∧ (s.hideCursor c).1.w = s.w ∧ (s.hideCursor c).1.h = s.h ∧
     (s.hideCursor c).1.style = s.style ∧ (s.hideCursor c).1.curstyle = s.curstyle ∧ (s.hideCursor c).1.clear = s.clear ∧
     (s.hideCursor c).1.fini = s.fini ∧
@@ -1111,7 +1364,7 @@ theorem SyncInv.congr {c : DrawCfg} {d : Option Style} {s s' : Scr} {t t' : ATer
 theorem showCursor_apply (c : DrawCfg) (s : Scr) (t : ATerm) :
     (t.applyAll (s.showCursor c).2).grid = t.grid ∧ (t.applyAll (s.showCursor c).2).w = t.w ∧
     (t.applyAll (s.showCursor c).2).h = t.h ∧ (t.applyAll (s.showCursor c).2).chaos = t.chaos ∧
-    (t.applyAll (s.showCursor c).2).writes = t.writes ∧
+    ((t.applyAll (s.showCursor c).2).writes = t.writes ∧ (t.applyAll (s.showCursor c).2).covered = t.covered) ∧
     (s.showCursor c).1.cells = s.cells ∧ (s.showCursor c).1.w = s.w ∧ (s.showCursor c).1.h = s.h ∧
     (s.showCursor c).1.style = s.style ∧ (s.showCursor c).1.clear = s.clear ∧ (s.showCursor c).1.fini = s.fini ∧
     ((s.showCursor c).1.cursorx = s.cursorx ∧ (s.showCursor c).1.cursory = s.cursory ∧
@@ -1189,18 +1442,18 @@ theorem draw_post {c : DrawCfg} (hrw : RwOk c.rw) (hct : c.Plain) {d : Option St
       r2.1.curstyle = r1.1.curstyle ∧ r2.1.clear = false ∧ r2.1.fini = r1.1.fini ∧ r2.1.cx = r1.1.cx ∧ r2.1.cy = r1.1.cy ∧
       (r2.1.cursorx = r1.1.cursorx ∧ r2.1.cursory = r1.1.cursory ∧ r2.1.cursorStyle = r1.1.cursorStyle ∧
         r2.1.cursorColor = r1.1.cursorColor) ∧
-      t2.writes = t1.writes ∧ t2.visible = t1.visible ∧ t2.shape = t1.shape ∧
+      (t2.writes = t1.writes ∧ t2.covered = t1.covered) ∧ t2.visible = t1.visible ∧ t2.shape = t1.shape ∧
       (r1.1.cells.inRange r1.1.cx r1.1.cy → t2.cur = some (r1.1.cx, r1.1.cy)) := by
     cases hcl : r1.1.clear
     · rw [hcl] at hr2; simp only [Bool.false_eq_true, if_false] at hr2
       rw [← hr2] at ht2 ⊢; simp only [applyAll_nil] at ht2; rw [← ht2]
-      exact ⟨inv2 hcl, rfl, rfl, rfl, rfl, rfl, hcl, rfl, rfl, rfl, ⟨rfl, rfl, rfl, rfl⟩, rfl, rfl, rfl, hkc1⟩
+      exact ⟨inv2 hcl, rfl, rfl, rfl, rfl, rfl, hcl, rfl, rfl, rfl, ⟨rfl, rfl, rfl, rfl⟩, ⟨rfl, rfl⟩, rfl, rfl, hkc1⟩
     · rw [hcl] at hr2; simp only [if_true] at hr2
       have e1 : r2.1 = { r1.1 with clear := false } := by rw [← hr2]; rfl
       have e2 : r2.2 = [Cmd.clear r1.1.style] := by rw [← hr2]; rfl
       have e3 : t2 = { t1.allGarbage with cur := none, pen := none } := by rw [← ht2, e2]; rfl
       rw [e1, e3]
-      refine ⟨?_, rfl, rfl, rfl, rfl, rfl, rfl, rfl, rfl, rfl, ⟨rfl, rfl, rfl, rfl⟩, rfl, rfl, rfl, ?_⟩
+      refine ⟨?_, rfl, rfl, rfl, rfl, rfl, rfl, rfl, rfl, rfl, ⟨rfl, rfl, rfl, rfl⟩, ⟨rfl, rfl⟩, rfl, rfl, ?_⟩
       · exact SyncInv.fresh pre2.tw pre2.th pre2.cw pre2.ch pre2.wok pre2.valid (hall1 hcl) (fun _ _ => rfl)
       · intro hr; exfalso
         cases hh : c.hasHide
@@ -1227,7 +1480,7 @@ theorem draw_post {c : DrawCfg} (hrw : RwOk c.rw) (hct : c.Plain) {d : Option St
   have hw2 : r2.1.w = s.w := by rw [f2, g8, e02]
   have hh2 : r2.1.h = s.h := by rw [f3, g9, e03]
   refine { sync := ?_, gc_same := ?_, lock_same := ?_, done := ?_, w_same := ?_, h_same := ?_, style_same := ?_,
-           cursor_same := ?_, clear_done := ?_, fini_same := ?_, cursor := ?_, writes := ?_ }
+           cursor_same := ?_, clear_done := ?_, fini_same := ?_, cursor := ?_, writes := ?_, covers := ?_ }
   · exact rp.sync.congr k6 k7 k8 k9 k1 k2 k3
   · intro i j; rw [k6, rp.gc_same, hcells2]
   · intro i j; rw [k6, rp.lock_same, hcells2]
@@ -1235,7 +1488,7 @@ theorem draw_post {c : DrawCfg} (hrw : RwOk c.rw) (hct : c.Plain) {d : Option St
     rw [k6]
     have hy : 0 ≤ y ∧ y < s.h := by have := pre.ch; simp only [inRange_iff] at hr; omega
     apply rp.done y x (by omega) (by rw [hh2]; omega) (by rw [hh2]; exact hy.2)
-    · rw [hcells2, hw2]; simpa [visited, pre.cw] using hv
+    · rw [hcells2, hw2]; simpa [visitedG, pre.cw] using hv
     · rw [hcells2]; exact hl
   · rw [k7, rp.w_same, hw2]
   · rw [k8, rp.h_same, hh2]
@@ -1281,8 +1534,12 @@ theorem draw_post {c : DrawCfg} (hrw : RwOk c.rw) (hct : c.Plain) {d : Option St
         simp only [ATerm.clampX, ATerm.clampY, ht3d.1, ht3d.2]
   · obtain ⟨ws, hws, hm⟩ := rp.writes
     refine ⟨ws, ?_, ?_⟩
-    · rw [k5, hws, f11, g5]
+    · rw [k5.1, hws, f11.1, g5.1]
     · intro p hp; have := (hm p hp).2; rw [hcells2, hw2] at this
-      exact ⟨this.1, by simpa [visited, pre.cw] using this.2⟩
+      exact ⟨this.1, by simpa [visitedG, pre.cw] using this.2⟩
+  · obtain ⟨cs, hcs, hm⟩ := rp.covers
+    refine ⟨cs, ?_, ?_⟩
+    · rw [k5.2, hcs, f11.2, g5.2]
+    · intro hg p hp; have := hm hg p hp; rw [hcells2] at this; exact this
 
 end Tcell
